@@ -62,6 +62,7 @@ func init() {
 
 func propC01(w *World, r *Report) {
 	defer RunEmptyTableGate(w, r)
+	defer RunNonNilTable(w, r)
 	defer RunTimeCarry(w, r)
 	defer RunNameEncodingID(w, r) // the strings of the name table come back: the writer uses an encoding id the reader decodes
 	defer func() {
